@@ -10,6 +10,21 @@ theorem mem_setWrite {ws : List WriteRec} {r w : WriteRec} :
     w ∈ setWrite ws r ↔ w = r ∨ (w ∈ ws ∧ w.commitTs ≠ r.commitTs) := by
   simp [setWrite, List.mem_filter]
 
+theorem dropLock_some {S : Nat} {o : Option Lock} {l : Lock} (h : dropLock S o = some l) : o = some l ∧ l.ts ≠ S := by
+  cases o with
+  | none => simp [dropLock] at h
+  | some l0 =>
+    simp only [dropLock] at h
+    split at h
+    · cases h
+    · rename_i hne
+      simp only [Option.some.injEq] at h
+      subst h
+      exact ⟨rfl, hne⟩
+
+theorem dropLock_keep {S : Nat} {l : Lock} (h : l.ts ≠ S) : dropLock S (some l) = some l := by
+  simp [dropLock, h]
+
 theorem findByStart_none {ws : List WriteRec} {S : Nat} :
     findByStart ws S = none ↔ ∀ w ∈ ws, w.startTs ≠ S := by
   simp [findByStart, List.find?_eq_none]
@@ -49,7 +64,7 @@ def effCommit (ks : KeyState) (l : Lock) (cv : Nat) : KeyState :=
   { ks with lock := none, writes := setWrite ks.writes ⟨cv, l.ts, l.kind⟩ }
 
 def effRollback (ks : KeyState) : KeyState :=
-  { lock := none, writes := setWrite ks.writes ⟨S, S, .rollback⟩, data := setData ks.data S none }
+  { lock := dropLock S ks.lock, writes := setWrite ks.writes ⟨S, S, .rollback⟩, data := setData ks.data S none }
 
 def effPush (ks : KeyState) (l : Lock) (n : Nat) : KeyState :=
   { ks with lock := some { l with minCommit := n } }
@@ -61,6 +76,11 @@ inductive KStep (m : Mut) (ks : KeyState) : KeyState → Prop
   | commit (l : Lock) : ks.lock = some l → l.ts = S → KStep m ks (effCommit ks l CV)
   | rollback : NoRec S ks → KStep m ks (effRollback S ks)
   | push (l : Lock) (n : Nat) : ks.lock = some l → l.ts = S → KStep m ks (effPush ks l n)
+  /-- another transaction locks the key (possible only while T holds no lock on it) -/
+  | foreign (l' : Lock) (d' : Nat → Option Nat) : ¬ HasL S ks → l'.ts ≠ S → d' S = ks.data S →
+      KStep m ks { lock := some l', writes := ks.writes, data := d' }
+  /-- another transaction (start ts `fts`, different from both of T's timestamps) is rolled back on the key -/
+  | foreignRb (fts : Nat) : fts ≠ S → fts ≠ CV → KStep m ks (effRollback fts ks)
 
 variable {S CV}
 
@@ -139,7 +159,8 @@ theorem KInv.step {m : Mut} {ks ks' : KeyState} (ok : TsOK S CV m) (h : KInv S C
         · rw [r1, r2]
         · exact absurd s2 (hn w2 m2)
       · exact absurd s1 (hn w1 m1)
-    · intro l' hl'; simp [effRollback] at hl'
+    · intro l' hl' hts'
+      exact absurd hts' (dropLock_some hl').2
     · rintro ⟨w, hw, hs, hk⟩
       rcases (hmem w).1 hw with r | ⟨m1, _⟩
       · subst r; exact absurd rfl hk
@@ -152,6 +173,38 @@ theorem KInv.step {m : Mut} {ks ks' : KeyState} (ok : TsOK S CV m) (h : KInv S C
       subst hl'
       exact ⟨hk, hd, hn⟩
     · intro hc; exact h.cd hc
+  | foreign l' d' hnl hts hd =>
+    refine ⟨h.uniq, h.recs, h.one, ?_, ?_⟩
+    · intro l hl hl2
+      simp only [Option.some.injEq] at hl
+      subst hl
+      exact absurd hl2 hts
+    · intro hc; show d' S = m.dataVal; rw [hd]; exact h.cd hc
+  | foreignRb fts h1 h2 =>
+    have hmem : ∀ w, w ∈ (effRollback fts ks).writes ↔ w = ⟨fts, fts, .rollback⟩ ∨ (w ∈ ks.writes ∧ w.commitTs ≠ fts) := by
+      intro w; simp [effRollback, mem_setWrite]
+    have hdata : (effRollback fts ks).data S = ks.data S := by
+      simp [effRollback, setData, Ne.symm h1]
+    have old : ∀ w ∈ (effRollback fts ks).writes, w.startTs = S → w ∈ ks.writes := by
+      intro w hw hs
+      rcases (hmem w).1 hw with r | ⟨m1, _⟩
+      · subst r; exact absurd hs h1
+      · exact m1
+    refine ⟨?_, ?_, ?_, ?_, ?_⟩
+    · intro w1 hw1 w2 hw2 e
+      rcases (hmem w1).1 hw1 with r1 | ⟨m1, n1⟩ <;> rcases (hmem w2).1 hw2 with r2 | ⟨m2, n2⟩
+      · rw [r1, r2]
+      · subst r1; exact absurd e.symm n2
+      · subst r2; exact absurd e n1
+      · exact h.uniq w1 m1 w2 m2 e
+    · intro w hw hs; exact h.recs w (old w hw hs) hs
+    · intro w1 hw1 w2 hw2 s1 s2; exact h.one w1 (old w1 hw1 s1) w2 (old w2 hw2 s2) s1 s2
+    · intro l hl hts
+      have hl0 : ks.lock = some l := (dropLock_some (show dropLock fts ks.lock = some l from hl)).1
+      obtain ⟨a, b, c⟩ := h.lk l hl0 hts
+      exact ⟨a, hdata.trans b, fun w hw hs => c w (old w hw hs) hs⟩
+    · rintro ⟨w, hw, hs, hk⟩
+      exact hdata.trans (h.cd ⟨w, old w hw hs, hs, hk⟩)
 
 /-- records of T are never lost, and a touched key stays touched -/
 structure KMono (S : Nat) (ks ks' : KeyState) : Prop where
@@ -184,6 +237,36 @@ theorem KStep.mono {m : Mut} {ks ks' : KeyState} (ok : TsOK S CV m) (h : KInv S 
   | push l n hl hts =>
     refine ⟨id, id, fun ht => ?_⟩
     exact Or.inl ⟨_, rfl, hts⟩
+  | foreign l' d' hnl hts hd =>
+    refine ⟨id, id, fun ht => ?_⟩
+    rcases ht with hl | hc | hr
+    · exact absurd hl hnl
+    · exact Or.inr (Or.inl hc)
+    · exact Or.inr (Or.inr hr)
+  | foreignRb fts h1 h2 =>
+    have keepC : HasC S ks → HasC S (effRollback fts ks) := by
+      rintro ⟨w, hw, hs, hk⟩
+      refine ⟨w, ?_, hs, hk⟩
+      simp only [effRollback, mem_setWrite]
+      refine Or.inr ⟨hw, ?_⟩
+      rcases h.recs w hw hs with rfl | rfl
+      · exact fun e => h1 e.symm
+      · exact fun e => h2 e.symm
+    have keepR : HasR S ks → HasR S (effRollback fts ks) := by
+      rintro ⟨w, hw, hs, hk⟩
+      refine ⟨w, ?_, hs, hk⟩
+      simp only [effRollback, mem_setWrite]
+      refine Or.inr ⟨hw, ?_⟩
+      rcases h.recs w hw hs with rfl | rfl
+      · exact fun e => h1 e.symm
+      · exact fun e => h2 e.symm
+    refine ⟨keepC, keepR, fun ht => ?_⟩
+    rcases ht with ⟨l, hl, hts⟩ | hc | hr
+    · refine Or.inl ⟨l, ?_, hts⟩
+      show dropLock fts ks.lock = some l
+      rw [hl]; exact dropLock_keep (by rw [hts]; exact Ne.symm h1)
+    · exact Or.inr (Or.inl (keepC hc))
+    · exact Or.inr (Or.inr (keepR hr))
 
 end
 
